@@ -306,6 +306,30 @@ def parseOp (s : N.St) (toks : List String) : Option N.Op :=
   | ["markro", r] => do some (.markRO (← r.toNat?))
   | _ => none
 
+/-- macro of the `elem` harnesses: `AppendEmpty` of a slice whose elements are RECORDS (generated message
+structs: a pointer-slice element or an inline value-slice element), embedded as a fixed-arity array
+container whose slots are the record's fields.  Expands to model steps: push, new record, push + set each field. -/
+def appendRec (s : N.St) (r : Nat) (p : List Sel) (cap : Nat) (fields : List NewV) : Option (N.St × Bool) := do
+  let o ← resolveObj s r p
+  let (s1, p1) := N.step s (.setSlot r o .push .nil cap)
+  if p1 then return (s, true)
+  let idx := (s1.h.wl o).live.length - 1
+  let recId := s1.h.next
+  let (s2, _) := N.step s1 (.setSlot r o (.idx idx) (.list false) 0)
+  let arity := fields.length
+  let (s3, _) := fields.foldl (fun (acc : N.St × Nat) x =>
+    let (a, _) := N.step acc.1 (.setSlot r recId .push .nil arity)
+    let (b, _) := N.step a (.setSlot r recId (.idx acc.2) x 0)
+    (b, acc.2 + 1)) (s2, 0)
+  return (s3, false)
+
+def parseMacro (s : N.St) (toks : List String) : Option (N.St × Bool) :=
+  match toks with
+  | "appendrec" :: r :: p :: rest => do
+    let fs ← (((kv rest "fields").getD "").splitOn ";").mapM parseNewV
+    appendRec s (← r.toNat?) (← parsePath p) (← kvNat rest "cap") fs
+  | _ => none
+
 def normalize (s : N.St) : N.St :=
   let ab := ((List.range s.h.next).map s.h.wb).toArray
   let al := ((List.range s.h.next).map s.h.wl).toArray
@@ -319,9 +343,12 @@ def handler : Handler DS where
   init := {}
   onCase := fun s toks => { s with H := (kvNat toks "h").getD 0 }
   onOp := fun s toks =>
-    match parseOp s.m toks with
-    | some op =>
-      let (m', p) := N.step s.m op
+    let res : Option (N.St × Bool) :=
+      match parseOp s.m toks with
+      | some op => some (N.step s.m op)
+      | none => parseMacro s.m toks
+    match res with
+    | some (m', p) =>
       let m' := normalize m'
       let dump := (List.range s.H).map (fun r => showV m'.dep m'.h (m'.root r))
       ({ s with m := m' }, ["obs " ++ (if p then "panic" else "ok") ++ " " ++ " ".intercalate dump])
